@@ -112,3 +112,11 @@ Lemma close_nil_sets_flag_l : forall underlying_fails,
 Proof. intros [|]; vm_compute; intros H; congruence. Qed.
 Lemma close_succeeds_when_underlying_does_l : close_model false = (true, true).
 Proof. vm_compute. reflexivity. Qed.
+
+(* ---------------------------------------------------------------- Zip reports success only for the announced size *)
+Lemma zip_file_ok_sound_l : forall announced served, zip_file_ok announced served = true -> announced = served.
+Proof.
+  intros a sv. unfold zip_file_ok.
+  assert (E : zip_walker_checks_copied_size = true) by (vm_compute; reflexivity).
+  rewrite E. apply Z.eqb_eq.
+Qed.
